@@ -385,7 +385,22 @@ func (g *c16Gen) basic(family string, i int, seed uint64) *c16Scenario {
 		}
 		sc.Hook2 = &h2
 		sc.Features = append(sc.Features, "hook-changes-mind")
+		for _, a := range sc.Hook.Attachments {
+			found := false
+			for _, b := range h2.Attachments {
+				if b["kind"] == a["kind"] && b["metadata"].(map[string]interface{})["name"] == a["metadata"].(map[string]interface{})["name"] {
+					found = true
+					if b["data"] != nil && b["data"].(map[string]interface{})["k"] == "changed" || b["spec"] != nil && b["spec"].(map[string]interface{})["size"] == int64(9) {
+						c16AddFeature(sc, "attachment-differs")
+					}
+				}
+			}
+			if !found {
+				c16AddFeature(sc, "attachment-undesired")
+			}
+		}
 	}
+	c16RuleFeatures(sc)
 	if r.Chance(2, 5) {
 		g.unmarked(sc, rule, false)
 	}
@@ -408,6 +423,106 @@ func (g *c16Gen) basic(family string, i int, seed uint64) *c16Scenario {
 		}
 		sc.Rounds = append(sc.Rounds, rs)
 	}
+	return sc
+}
+
+func c16AddFeature(sc *c16Scenario, f string) {
+	for _, x := range sc.Features {
+		if x == f {
+			return
+		}
+	}
+	sc.Features = append(sc.Features, f)
+}
+
+// the update-strategy features of a scenario's attachment rules
+func c16RuleFeatures(sc *c16Scenario) {
+	for _, a := range sc.Ctl.Attachments {
+		m := a.Method
+		if m == "" {
+			m = "unset"
+		}
+		c16AddFeature(sc, "method-"+m)
+		if a.APIVersion == "v1" {
+			c16AddFeature(sc, "attachment-core-group")
+		} else {
+			c16AddFeature(sc, "attachment-named-group")
+		}
+	}
+}
+
+var c16ExplicitMethods = []string{"OnDelete", "Recreate", "InPlace", "RollingRecreate", "RollingInPlace"}
+
+// a changed copy of an attachment: the hook now wants another value in a field it owns
+func c16ChangedAttachment(a c16J) c16J {
+	a2 := runtime.DeepCopyJSON(a)
+	if a2["kind"] == "ConfigMap" {
+		a2["data"] = c16J{"k": "changed"}
+	} else {
+		a2["spec"] = c16J{"size": int64(9), "items": c16A{c16J{"name": "i", "value": "changed"}}}
+	}
+	return a2
+}
+
+// strategy: one attachment rule of a core-group kind and one of a named group, each with an explicit update
+// method; after the warm-up the hook keeps one attachment of each kind, changes one and drops one
+func (g *c16Gen) strategy(i int, seed uint64) *c16Scenario {
+	r := g.r
+	sc := g.basic("strategy", i, seed)
+	var rule c16RuleSpec
+	for _, ru := range sc.Ctl.Rules {
+		if ru.Kind == sc.Target["kind"] {
+			rule = ru
+		}
+	}
+	lm := c16Meta(sc.Target, "labels")
+	c16Satisfy(lm, rule.Labels)
+	am := c16Meta(sc.Target, "annotations")
+	c16Satisfy(am, rule.Annotations)
+	sc.Target["metadata"].(map[string]interface{})["labels"] = lm
+	sc.Target["metadata"].(map[string]interface{})["annotations"] = am
+	core := c16AttConfigMap
+	named := c16AttGadget
+	if !rule.Namespaced {
+		named = c16AttClusterGadget
+	}
+	core.Method = c16ExplicitMethods[r.Intn(len(c16ExplicitMethods))]
+	named.Method = c16ExplicitMethods[r.Intn(len(c16ExplicitMethods))]
+	sc.Ctl.Attachments = []c16AttSpec{core, named}
+	if r.Bool() {
+		sc.Ctl.Attachments = []c16AttSpec{named, core}
+	}
+	sc.Ctl.Finalize = false
+	h := c16HookProgram{Kind: "const", Labels: map[string]*string{"deco-strategy": c16Str("1")}}
+	h2 := h
+	for _, a := range sc.Ctl.Attachments {
+		prefix := "core"
+		if a.APIVersion != "v1" {
+			prefix = "named"
+		}
+		same := g.attachment(a, rule, prefix+"-same", 1)
+		diff := g.attachment(a, rule, prefix+"-diff", 1)
+		gone := g.attachment(a, rule, prefix+"-gone", 1)
+		h.Attachments = append(h.Attachments, same, diff, gone)
+		h2.Attachments = append(h2.Attachments, same, c16ChangedAttachment(diff))
+		if r.Chance(1, 3) {
+			h2.Attachments = append(h2.Attachments, g.attachment(a, rule, prefix+"-new", 2))
+		}
+	}
+	sc.Hook = h
+	sc.Hook2 = &h2
+	sc.Warmup = 1 + r.Intn(2)
+	sc.Rounds = []c16RoundSpec{{}, {}}
+	kept := []string{}
+	for _, f := range sc.Features {
+		if len(f) < 7 || (f[:7] != "method-" && (len(f) < 11 || f[:11] != "attachment-")) {
+			kept = append(kept, f)
+		}
+	}
+	sc.Features = kept
+	c16RuleFeatures(sc)
+	c16AddFeature(sc, "attachment-differs")
+	c16AddFeature(sc, "attachment-undesired")
 	return sc
 }
 
@@ -1072,12 +1187,36 @@ func c16Corpus() []*c16Scenario {
 		// the response sets the label the selector forbids: the next sync no longer selects the target
 		Hook:   c16HookProgram{Kind: "const", Labels: map[string]*string{"skip": c16Str("now")}, Annotations: map[string]*string{"team": c16Str("x")}},
 		Rounds: []c16RoundSpec{{}, {}}})
+	// 11. the update strategy of the attachment rule decides what happens to a differing attachment:
+	//     core-group kind (ConfigMap) and named-group kind (Gadget) under InPlace, Recreate and OnDelete;
+	//     a0 stays, a1 changes, a2 is no longer desired
+	gadget := func(name string, size int64) c16J {
+		return c16J{"apiVersion": "apps.example.com/v1", "kind": "Gadget", "metadata": c16J{"name": name}, "spec": c16J{"size": size}}
+	}
+	for _, m := range []string{"InPlace", "Recreate", "OnDelete", "RollingInPlace", "RollingRecreate"} {
+		coreRule, namedRule := c16AttConfigMap, c16AttGadget
+		coreRule.Method, namedRule.Method = m, m
+		out = append(out, &c16Scenario{Family: "corpus",
+			Features: []string{"corpus-strategy", "method-" + m, "attachment-core-group", "attachment-named-group", "attachment-differs", "attachment-undesired"},
+			Ctl:      c16CtlSpec{Name: "corpus11" + m, Rules: []c16RuleSpec{podRule}, Attachments: []c16AttSpec{coreRule, namedRule}},
+			Target:   pod(c16J{"managed": "yes"}, c16J{"decorate": "yes"}, nil),
+			Hook: c16HookProgram{Kind: "const", Attachments: []c16J{cm("a0", "", "1"), cm("a1", "", "1"), cm("a2", "", "1"),
+				gadget("g0", 1), gadget("g1", 1), gadget("g2", 1)}},
+			Hook2: &c16HookProgram{Kind: "const", Attachments: []c16J{cm("a0", "", "1"), cm("a1", "", "changed"),
+				gadget("g0", 1), gadget("g1", 2)}},
+			Warmup: 1, Rounds: []c16RoundSpec{{}, {}}})
+	}
 	return out
 }
 
-func c16GenerateScenarios(seed uint64, n int, adv bool) []*c16Scenario {
+func c16GenerateScenarios(prop string, seed uint64, n int, adv bool) []*c16Scenario {
 	root := vh.NewRng(seed ^ 0xc16c16)
 	out := c16Corpus()
+	// the C06 leg looks at attachment traffic: weight the update-strategy family
+	strategySlots := map[int]bool{2: true, 4: true}
+	if prop == "C06d" {
+		strategySlots = map[int]bool{0: true, 1: true, 2: true, 3: true, 4: true, 5: true, 7: true, 10: true}
+	}
 	for i := 0; len(out) < n || i == 0; i++ {
 		sub, s := root.Fork()
 		g := &c16Gen{r: sub, adv: adv}
@@ -1086,7 +1225,12 @@ func c16GenerateScenarios(seed uint64, n int, adv bool) []*c16Scenario {
 		if adv {
 			pick = []int{9, 10, 11, 12, 13, 14, 15, 6, 7, 8}[i%10]
 		}
+		if !adv && strategySlots[pick] {
+			pick = 100
+		}
 		switch pick {
+		case 100:
+			sc = g.strategy(i, s)
 		case 0, 1, 2:
 			sc = g.basic("basic", i, s)
 		case 3, 4:
